@@ -567,6 +567,16 @@ func run(w *ev.W) {
 	}
 }
 
+func constLines(dump string) string {
+	var out []string
+	for _, l := range strings.Split(dump, "\n") {
+		if strings.HasPrefix(l, "const ") {
+			out = append(out, l)
+		}
+	}
+	return strings.Join(out, " ; ")
+}
+
 func replayFiles(w *ev.W, files map[string]string, bound int) {
 	outs := map[string]bool{}
 	ex := &choice.Explorer{Bound: bound}
@@ -602,17 +612,48 @@ func (r *runner) namedPrograms() {
 	progs := []struct {
 		name  string
 		files map[string]string
+		// want: substrings that the description of the module compiled from f0 must contain
+		want []string
 	}{
 		// the TYPE of constant X leads, through an include cycle, to a default that refers
 		// to X; X's value does not depend on itself
 		{"const-type-cycle-through-include", map[string]string{
 			"/m/f0.thrift": "include \"./f1.thrift\"\nconst list<f1.S> X = []\n",
-			"/m/f1.thrift": "include \"./f0.thrift\"\nstruct S { 1: optional list<S> l = f0.X }\n"}},
+			"/m/f1.thrift": "include \"./f0.thrift\"\nstruct S { 1: optional list<S> l = f0.X }\n"}, nil},
 		{"const-struct-type-cycle-through-include", map[string]string{
 			"/m/f0.thrift": "include \"./f1.thrift\"\nconst f1.S X = {}\n",
-			"/m/f1.thrift": "include \"./f0.thrift\"\nstruct S { 1: optional i32 a = 1; 2: optional list<S> l }\nstruct T { 1: optional S s = f0.X }\n"}},
+			"/m/f1.thrift": "include \"./f0.thrift\"\nstruct S { 1: optional i32 a = 1; 2: optional list<S> l }\nstruct T { 1: optional S s = f0.X }\n"}, nil},
 		{"const-type-cycle-same-file", map[string]string{
-			"/m/f0.thrift": "const list<S> X = []\nstruct S { 1: optional list<S> l = X }\n"}},
+			"/m/f0.thrift": "const list<S> X = []\nstruct S { 1: optional list<S> l = X }\n"}, nil},
+		// a literal that spells out the field leading back to the struct being linked
+		{"literal-names-back-reference", map[string]string{
+			"/m/f0.thrift": "struct S { 1: optional T t }\nstruct T { 1: optional S s = {\"t\": {\"s\": {}}} }\n"}, nil},
+		{"literal-names-back-reference-through-include", map[string]string{
+			"/m/f0.thrift": "include \"./f1.thrift\"\nstruct S { 1: optional f1.T t }\n",
+			"/m/f1.thrift": "include \"./f0.thrift\"\nstruct T { 1: optional f0.S s = {\"t\": {\"s\": {}}} }\n"}, nil},
+		// a container constant referenced under other element types: every referrer has its
+		// own cast value and the referenced constant keeps the one of its declared type
+		{"list-constant-referenced-under-other-element-types", map[string]string{
+			"/m/f0.thrift": "include \"./f1.thrift\"\nconst list<double> W = f1.SIZES\nconst list<i64> L = f1.SIZES\nconst list<bool> B = f1.BITS\nstruct H { 1: optional list<double> w = f1.SIZES; 2: optional list<f1.E> e = f1.SIZES }\n",
+			"/m/f1.thrift": "enum E { A = 1, B = 2, C = 3 }\nconst list<i32> SIZES = [1, 2, 3]\nconst list<i32> BITS = [0, 1]\nconst list<i32> AGAIN = SIZES\n"},
+			[]string{
+				"f1.thrift:SIZES type=list<i32> value=[int:1,int:2,int:3]",
+				"f1.thrift:AGAIN type=list<i32> value=[int:1,int:2,int:3]",
+				"f1.thrift:BITS type=list<i32> value=[int:0,int:1]",
+				"f0.thrift:W type=list<double> value=[double:1,double:2,double:3]",
+				"f0.thrift:L type=list<i64> value=[int:1,int:2,int:3]",
+			}},
+		{"set-and-map-constants-referenced-under-other-element-types", map[string]string{
+			"/m/f0.thrift": "const set<i32> S = [1, 2]\nconst set<double> SD = S\nconst map<i32, i32> M = {1: 2}\nconst map<i32, double> MD = M\nconst map<double, i32> DM = M\nconst set<i32> S2 = S\nconst map<i32, i32> M2 = M\n"},
+			[]string{
+				"f0.thrift:S type=set<i32> value=set[int:1,int:2]",
+				"f0.thrift:S2 type=set<i32> value=set[int:1,int:2]",
+				"f0.thrift:M type=map<i32,i32> value=map{int:1:int:2}",
+				"f0.thrift:M2 type=map<i32,i32> value=map{int:1:int:2}",
+				"f0.thrift:SD type=set<double> value=set[double:1,double:2]",
+				"f0.thrift:MD type=map<i32,double> value=map{int:1:double:2}",
+				"f0.thrift:DM type=map<double,i32> value=map{double:1:int:2}",
+			}},
 	}
 	for _, p := range progs {
 		if !w.Own() {
@@ -625,12 +666,24 @@ func (r *runner) namedPrograms() {
 		results := map[string]string{}
 		for root := range p.files {
 			distinct := map[string]bool{}
+			dumps := map[string]bool{}
 			ex := &choice.Explorer{Bound: r.bound}
 			ex.Body = func(c *choice.Ctx) {
 				out, _ := outcomeAt(root, p.files, c)
 				distinct[strings.SplitN(out, "\n", 2)[0]] = true
+				dumps[out] = true
+				if root == "/m/f0.thrift" && strings.HasPrefix(out, "OK") {
+					for _, want := range p.want {
+						if !strings.Contains(out, want+"\n") && !strings.HasSuffix(out, want) {
+							w.Violation("wrong-value:named:"+p.name, fmt.Sprintf("compiled module does not contain %q (choice vector %v); constants: %.600s", want, c.Vector(), constLines(out)), rep)
+						}
+					}
+				}
 			}
 			ex.Run()
+			if len(dumps) > 1 {
+				w.Violation("order-dependent:named:"+p.name, fmt.Sprintf("root %s: %d different results under different map orders", root, len(dumps)), rep)
+			}
 			w.R.States += ex.Stats.States
 			w.R.Transitions += ex.Stats.Transitions
 			var ks []string
